@@ -253,6 +253,26 @@ theorem trywait_fails_only_without_unit (s s' : St) (f : Nat) (c : Int)
     omega
   · simp at hs
 
+/-- **trywait never blocks and never succeeds without a unit** (the three facts above in one
+    statement): in every reachable state, a fiber inside trywait (a) can take its next step by
+    itself, (b) after any accepted event is still inside trywait or has returned and has not
+    written a fiber state word (no parking), and (c) if its CAS succeeds, the counter was
+    positive and is decremented by exactly one. -/
+theorem trywait_nonblocking_and_honest (v node0 : Nat) (es : List Ev) (s : St) (f : Nat)
+    (h : (sys v node0).run es = some s) (ht : isTry (s.pc f) = true) :
+    (∃ e, e.fiber = some f ∧ (step s e).isSome = true) ∧
+    (∀ e s', step s e = some s' →
+      (isTry (s'.pc f) = true ∨ s'.pc f = .idle) ∧ (∀ k g, e ≠ .wWaiting k f g)) ∧
+    (∀ a b c s', step s (.casCounter f a b c true) = some s' →
+      0 < s.counter ∧ s'.counter = s.counter - 1) := by
+  refine ⟨trywait_enabled s f ht, ?_, ?_⟩
+  · intro e s' hs
+    have := trywait_no_parking v node0 es s s' e f h ht hs
+    exact ⟨this.1, this.2.1⟩
+  · intro a b c s' hs
+    have := trywait_honest v node0 es s s' f a b c h ht hs
+    exact ⟨this.1, this.2.1⟩
+
 /-! ### quiescence -/
 
 /-- **Quiescent value.**  Once activity has ceased (no fiber is inside wait, trywait or post)
